@@ -189,6 +189,67 @@ func runStrLitCases(seed uint64, n int, outDir string, extra map[string]interfac
 			}
 		}
 	}
+	// string concatenations: the literal mergeBinaryExpr builds (hook VerifMergeStrings) vs Js.merge_strings, and the statement
+	// "the merged and minified literal has the concatenation of the parts' values" evaluated on each case
+	mkLit := func() string {
+		q := "\"'"[r.Intn(2)]
+		var b strings.Builder
+		b.WriteByte(q)
+		for i, m := 0, r.Intn(5); i < m; i++ {
+			p := strPieces[r.Intn(len(strPieces))]
+			if len(p) == 1 && p[0] == q {
+				p = "\\" + p
+			}
+			b.WriteString(p)
+		}
+		if r.Intn(3) == 0 {
+			b.WriteString([]string{"\\0", "\\1", "\\12", "\\7", "\\37", "\\377", "\\\\0", "\\x001"}[r.Intn(8)])
+		}
+		b.WriteByte(q)
+		return b.String()
+	}
+	cats := 0
+	for k := 0; k < n/4; k++ {
+		m := 2 + r.Intn(3)
+		lits := make([][]byte, m)
+		hexes := make([]string, m)
+		for i := range lits {
+			l := mkLit()
+			if i > 0 && r.Intn(2) == 0 {
+				l = l[:1] + string("0123456789"[r.Intn(10)]) + l[1:] // a part starting with a digit
+			}
+			lits[i] = []byte(l)
+			hexes[i] = hexd(lits[i])
+		}
+		merged, pan := func() (res []byte, pan bool) {
+			defer func() {
+				if p := recover(); p != nil {
+					pan = true
+				}
+			}()
+			return minjs.VerifMergeStrings(lits), false
+		}()
+		if pan || merged == nil {
+			continue
+		}
+		src := "x0=" + strings.Join(func() []string {
+			o := make([]string, m)
+			for i := range lits {
+				o[i] = string(lits[i])
+			}
+			return o
+		}(), "+")
+		fmt.Fprintf(fin, "jsstrcat\t%s\n", strings.Join(hexes, ","))
+		fmt.Fprintf(fout, "%s\n", hexd(merged))
+		fmt.Fprintf(fsrc, "%s\n", src)
+		for _, t := range []string{"0", "1"} {
+			fmt.Fprintf(fin, "jsstrcatv\t%s\t%s\n", t, strings.Join(hexes, ","))
+			fmt.Fprintf(fout, "ok\n")
+			fmt.Fprintf(fsrc, "%s\n", src)
+		}
+		cats++
+	}
+	extra["jsstrcat_cases"] = cats
 	extra["jsstr_literals"] = 2 * n
 	extra["jsstr_rewritten"] = changed
 	extra["jsstr_written_as_template"] = templ
